@@ -3,6 +3,8 @@
 package peerstream
 
 import (
+	"time"
+
 	"github.com/hashicorp/go-hclog"
 
 	"github.com/hashicorp/consul/agent/consul/state"
@@ -177,5 +179,58 @@ func VerifC17_ImportMirrorsSnapshot() {
 		_, db, _ := store.CheckServiceNodes(nil, "db", nil, "p1")
 		verifrt.Assert("C17.other-imported-service-untouched", len(db) == 1 && db[0].Node.Node == "n1")
 	}
+	verifrt.Reached("end")
+}
+
+
+// The peer's list of the services it still exports: imported services that are no longer on it disappear,
+// the others stay, local data and other peers' data are untouched.
+func VerifC17_ExportedList() {
+	store := state.NewStateStore(nil)
+	b := &vPeerBackend{store: store, idx: 100, peer: "p1"}
+	srv := &Server{Config: Config{Backend: b, GetStore: func() StateStore { return store }, Logger: hclog.NewNullLogger()}}
+	must := func(err error) {
+		if err != nil {
+			panic(err)
+		}
+	}
+	must(store.EnsureRegistration(1, &structs.RegisterRequest{Node: "n1", Address: "192.168.0.1",
+		Service: &structs.NodeService{ID: "api", Service: "api", Port: 9090}}))
+	must(store.EnsureRegistration(2, &structs.RegisterRequest{Node: "n1", Address: "172.16.0.1", PeerName: "p2",
+		Service: &structs.NodeService{ID: "api", Service: "api", Port: 7070, PeerName: "p2"}}))
+	imported := map[string]bool{}
+	for i, n := range []string{"api", "db"} {
+		if verifrt.Bool("imported." + n) {
+			must(store.EnsureRegistration(uint64(3+i), &structs.RegisterRequest{Node: "n1", Address: "10.0.0.1", PeerName: "p1",
+				Service: &structs.NodeService{ID: n, Service: n, Port: 8080, PeerName: "p1"}}))
+			imported[n] = true
+		}
+	}
+	listed := map[string]bool{}
+	var names []string
+	switch verifrt.Choice("exported-list", 4) {
+	case 0:
+		names = []string{"api", "db"}
+	case 1:
+		names = []string{"api"}
+	case 2:
+		names = []string{"db"}
+	}
+	for _, n := range names {
+		listed[n] = true
+	}
+	st := newMutableStatus(time.Now, true)
+	err := srv.handleUpsertExportedServiceList(st, "p1", "", &pbpeerstream.ExportedServiceList{Services: names})
+	verifrt.Assert("C17.exported-list.applies", err == nil)
+	for _, n := range []string{"api", "db"} {
+		_, now, _ := store.CheckServiceNodes(nil, n, nil, "p1")
+		verifrt.Assert("C17.exported-list.import-present-iff-imported-and-still-listed", (len(now) == 1) == (imported[n] && listed[n]))
+	}
+	_, nd, _ := store.GetNode("n1", nil, "p1")
+	verifrt.Assert("C17.exported-list.imported-node-kept-iff-still-used", (nd != nil) == ((imported["api"] && listed["api"]) || (imported["db"] && listed["db"])))
+	verifrt.Assert("C17.exported-list.only-this-peers-data-is-written", !b.foreign)
+	_, local, _ := store.CheckServiceNodes(nil, "api", nil, "")
+	_, other, _ := store.CheckServiceNodes(nil, "api", nil, "p2")
+	verifrt.Assert("C17.exported-list.local-and-other-peer-data-untouched", len(local) == 1 && len(other) == 1)
 	verifrt.Reached("end")
 }
